@@ -7,7 +7,7 @@ NOTES = ("Runtime monitoring only: every check executes the real code of /repo u
 ENGINES = [
     {"name": "ve2e", "path": "harness/e2e", "serves_properties": ["C01", "C14", "C17", "C19"],
      "kind_free_text": "Rust harness over the rusty-penguin library: real client_main_inner / run_listener / tls_connect on loopback sockets, raw HTTP client, scripted gate, scripted targets; quiescence witness from /proc"},
-    {"name": "vmux", "path": "harness/mux", "serves_properties": ["C02", "C03", "C04", "C05", "C06", "C07", "C08", "C09", "C10", "C11", "C12", "C13", "C15", "C16", "C18", "C20"],
+    {"name": "vmux", "path": "harness/mux", "serves_properties": ["C01", "C02", "C03", "C04", "C05", "C06", "C07", "C08", "C09", "C10", "C11", "C12", "C13", "C15", "C16", "C18", "C19", "C20"],
      "kind_free_text": "Rust harness over penguin-mux/cow-bytes/penguin-socks: PURE differential monitors, SIM (tokio current-thread, paused clock, in-memory WebSocket with wire tap and fault plan), THR, MICRO, Miri"},
 ]
 NOT_APPLICABLE = {}
@@ -45,10 +45,10 @@ TEXT = {
         "level_note": "Trusted: the in-memory WebSocket preserves order per direction (as WebSocket does); the PRF makes corruption/reordering/cross-talk visible with overwhelming probability.",
     },
     "C03": {
-        "engine": "vmux (SIM)",
+        "engine": "vmux (SIM + THR)",
         "technique": "online credit-accounting monitor on the wire tap plus CreditTaken/FrameConsumed/WindowOverrun hooks over seeded window-edge workloads",
         "design_ref": "DESIGN.md §4 C03, appendix A",
-        "level_text": "Rules R1-R5 (DESIGN appendix A.1) are evaluated on every Push/Acknowledge/Reset of every execution: outstanding frames never exceed the advertised window, one write = one frame = one unit, acknowledged <= consumed, no WindowOverrun/Reset of a live flow. Exploration.",
+        "level_text": "Rules R1-R5 (DESIGN appendix A.1) are evaluated on every Push/Acknowledge/Reset of every execution: outstanding frames never exceed the advertised window, one write = one frame = one unit, acknowledged <= consumed, no WindowOverrun/Reset of a live flow. The THR job repeats the workloads on real threads and adds a hammer scenario (6000 one-frame writes each way, one Acknowledge per frame) in which the writer's credit take races with incoming acknowledgements at full speed. Exploration.",
         "level_note": "Trusted: the reference codec used by the tap; hook placement (add-only) in poll_obtain_write_permission / increment_psh_recvd_since / the Full arm of dispatch.",
     },
     "C04": {
@@ -69,14 +69,14 @@ TEXT = {
         "engine": "vmux (SIM)",
         "technique": "offline history checker + invariant probe at quiescent points (flow-table accessor hook) over abort scenarios and long open/close cycles with scripted id re-use",
         "design_ref": "DESIGN.md §4 C06, appendix A",
-        "level_text": "Abort semantics (delivered-then-EOF, BrokenPipe afterwards), bystander integrity and the leak clause are checked on every execution; cycle runs open/close up to 400 streams in every close order with bystanders and re-issue freed ids through a scripted RNG. Exploration.",
+        "level_text": "Abort semantics (delivered-then-EOF, BrokenPipe afterwards), bystander integrity and the leak clause are checked on every execution; cycle runs open/close up to 400 streams in every close order with bystanders and re-issue freed ids through a scripted RNG; in held-handle cycle pairs one application keeps the handle of a gracefully ended stream: its id must stay in the flow table (unless a Reset of that flow was seen), the other end's attempt to re-use the id must be refused and retried, and the later drop of the old handle must not touch the new stream. Exploration.",
         "level_note": "Leak probe needs the add-only accessor hook; immediate re-use with frames of the old incarnation in flight is deliberately not demanded.",
     },
     "C07": {
-        "engine": "vmux (SIM)",
-        "technique": "runtime monitor over executions with scripted RNGs (forced id 0 / live ids / simultaneous identical choices) and a scripted raw peer (Reset of the first k Connects, Connect with id 0 / in-use id)",
+        "engine": "vmux (SIM + THR)",
+        "technique": "runtime monitor over executions with scripted RNGs (forced id 0 / live ids / simultaneous identical choices) and a scripted raw peer (Reset of the first k Connects, Connect with id 0 / in-use id / the id of an unanswered bind request)",
         "design_ref": "DESIGN.md §4 C07, appendix A",
-        "level_text": "Per request: Connect frames on the tap are counted and matched to the outcome (success iff acknowledged, FlowIdRejected after exactly R resets, never more than R attempts, never id 0 or a live id); target bytes and initial credit are compared on both sides, the latter also black-box. Exploration.",
+        "level_text": "Per request: Connect frames on the tap are counted and matched to the outcome (success iff acknowledged, FlowIdRejected after exactly R resets, never more than R attempts, never id 0 or a live id); a Connect carrying id 0, a live id or the id of a pending bind request is answered by exactly one Reset, nothing is delivered to the application and the existing flow / the bind request keeps working; target bytes and initial credit are compared on both sides, the latter also black-box. Exploration.",
         "level_note": "Trusted: reference codec on the tap; collisions are forced through the scripted RNG rather than awaited from chance.",
     },
     "C08": {
@@ -87,10 +87,10 @@ TEXT = {
         "level_note": "Base executions are sampled (seeded); the cut is at message granularity of the endpoint's WebSocket, not inside a frame.",
     },
     "C11": {
-        "engine": "vmux (SIM)",
+        "engine": "vmux (SIM + THR)",
         "technique": "offline history checker for datagrams (identity, at-most-once, order, loss licence from buffer occupancy) with concurrent stream monitors",
         "design_ref": "DESIGN.md §4 C11, appendix A",
-        "level_text": "Every received datagram is matched to the send it came from; losses are bounded by arrivals at a full buffer computed from the event order; over-long hosts must be refused without a trace on the wire; the connection task must stay alive and concurrent streams uncorrupted and unblocked. Exploration.",
+        "level_text": "Every received datagram is matched to the send it came from; losses are bounded by arrivals at a full buffer computed from the event order, exactly: the harness drains both datagram queues at the final quiescent point, so reached = received + licensed losses; over-long hosts must be refused without a trace on the wire; the connection task must stay alive and concurrent streams uncorrupted and unblocked. Exploration.",
         "level_note": "The occupancy model is an upper bound of the real buffer occupancy, so the loss bound is sound (never stricter than the statement).",
     },
     "C15": {
@@ -104,14 +104,14 @@ TEXT = {
         "engine": "vmux (SIM)",
         "technique": "runtime monitor on virtual timestamps of the wire tap: ping schedule, timeout bounds, pending-operation outcomes; (I,T) grid enumerated",
         "design_ref": "DESIGN.md §4 C16, appendix A",
-        "level_text": "All (I,T) pairs of the grid x 9 pong-script kinds (constant, random and per-ping delays <= T, busy executor, silent after k rounds, never, late, disabled) are executed in virtual time against a scripted raw peer; Ping times must be exactly k*I, a timeout needs >= T' of silence and must come within T'+I of the last pong for a silent peer, answered-in-time and disabled runs reach a 2000-interval horizon, and after the timeout every pending operation resolves.",
+        "level_text": "All (I,T) pairs of the grid x 12 pong-script kinds (constant, random and per-ping delays <= T, busy executor, silent after k rounds, never, late, disabled; never / k rounds / always again with a peer that sends Pings of its own) are executed in virtual time against a scripted raw peer; Ping times must be exactly k*I, a timeout needs >= T' of silence and must come within T'+I of the last pong for a silent peer, answered-in-time and disabled runs reach a 2000-interval horizon, and after the timeout every pending operation resolves.",
         "level_note": "Virtual time makes the bounds exact; delays inside the grid cells are seeded samples. One open known finding (variable answer delays within T), see known_findings.json and DESIGN.md 7.5.",
     },
     "C10": {
         "engine": "vmux (SIM)",
         "technique": "fault enumeration of peer frame sequences (bounded-exhaustive over opcode x target, random beyond) against the real endpoint; reply-rule oracle, bystander integrity, liveness probe",
         "design_ref": "DESIGN.md §4 C10, appendix A",
-        "level_text": "Every sequence up to length 2 (quick) / 3 (thorough) over 9 opcodes x 7 targets is sent by a scripted raw peer to a real endpoint holding flows in every state; replies are compared with the rules PROTOCOL.md fixes, the bystander stream must stay intact and complete, a liveness probe must pass, the task must neither return nor panic; invalid messages must end the connection with InvalidFrame and resolve everything pending.",
+        "level_text": "A blocked-executor watchdog turns a dead-locked connection task into a violation with a /proc witness. Every sequence up to length 2 (quick) / 3 (thorough) over 9 opcodes x 7 targets is sent by a scripted raw peer to a real endpoint holding flows in every state; replies are compared with the rules PROTOCOL.md fixes, the bystander stream must stay intact and complete, a liveness probe must pass, the task must neither return nor panic; invalid messages must end the connection with InvalidFrame and resolve everything pending.",
         "level_note": "Only replies the statement/PROTOCOL.md fix are asserted; the endpoint's slot model assumes the harness application's behaviour (hold / drop at EOF).",
     },
     "C12": {
@@ -125,7 +125,7 @@ TEXT = {
         "engine": "vmux (SIM)",
         "technique": "runtime monitor of the real bridge future over a scripted local stream and a real endpoint pair; position-addressed data, credit monitor, outcome and promptness oracle in virtual time",
         "design_ref": "DESIGN.md §4 C13, appendix A",
-        "level_text": "Each execution drives into_copy_bidirectional_with_buf with a seeded script of chunk sizes, Pending points (woken / never woken), partial writes, EOF and error positions on read/write/flush/shutdown, against a far application that finishes, aborts or starves; bytes, counts, half-close propagation (Finish on the wire within 3 ms of virtual time after the local EOF, with or without credit), credit use in both directions (every Push has a unit, every unit became a Push) and prompt error completion are checked.",
+        "level_text": "Each execution drives into_copy_bidirectional_with_buf with a seeded script of chunk sizes, Pending points (woken / never woken), partial writes, a local shutdown that needs 1-4 polls, EOF and error positions on read/write/flush/shutdown, against a far application that finishes, aborts or starves; bytes, counts, half-close propagation (Finish on the wire within 3 ms of virtual time after the local EOF, with or without credit), credit use in both directions (every Push has a unit, every unit became a Push) and prompt error completion are checked.",
         "level_note": "Promptness is decided by quiescence in virtual time, not by wall clock.",
     },
     "C14": {
@@ -146,14 +146,14 @@ TEXT = {
         "engine": "ve2e (E2E) + vmux (PURE)",
         "technique": "fault enumeration per connection attempt through a scripted gate in front of a real server, timing oracle with load / quiescence witnesses; exhaustive differential check of the back-off generator",
         "design_ref": "DESIGN.md §4 C19",
-        "level_text": "Each script of per-attempt server behaviours is executed against the real client several times; attempt counts, lower/upper delay bounds against the reference back-off, exit conditions, listener availability, survival of a local conversation across an outage / stream-request timeout and self-reconnect after an orderly Close are checked. The back-off generator itself is compared exhaustively with a reference over small tuples and reset patterns.",
+        "level_text": "Each script of per-attempt server behaviours is executed against the real client several times; attempt counts, lower/upper delay bounds against the reference back-off, exit conditions, listener availability, survival of a local conversation across an outage / stream-request timeout and self-reconnect after an orderly Close are checked. The back-off generator itself is compared exhaustively with a reference over small tuples and reset patterns, and over 400-advance outages (a panic is a violation); one E2E script is an outage of 100 consecutive failures.",
         "level_note": "Real time: upper bounds are tolerant, need 5 late repeats with a punctual-timer load witness, and otherwise fall back to inconclusive; scripts are a fixed set plus seeded ones in thorough.",
     },
     "C01": {
-        "engine": "ve2e (E2E)",
+        "engine": "ve2e (E2E) + vmux (SIM)",
         "technique": "runtime monitor over real client/server executions on loopback: scripted local clients and targets, position-addressed payloads, per-conversation byte-stream and end-of-direction oracle, UDP tag/source/duplicate/header oracle",
         "design_ref": "DESIGN.md §4 C01",
-        "level_text": "Conversations of six kinds enter through all eight TCP entry kinds (fixed port, Unix socket, SOCKS4/4a, SOCKS5 v4/v6/domain, HTTP CONNECT) with seeded sizes (0 to several windows), chunking and concurrency; UDP exchanges run through the UDP remote and SOCKS5 UDP ASSOCIATE with several local sockets at once, each association addressing two different targets. Every received byte is checked against the sender's position-addressed stream, half-close and close propagation are checked per direction, UDP replies per socket. Exploration under the OS scheduler.",
-        "level_note": "No schedule control on real sockets; a hang needs a /proc quiescence witness, otherwise the run is inconclusive.",
+        "level_text": "Conversations of six kinds enter through all eight TCP entry kinds (fixed port, Unix socket, SOCKS4/4a, SOCKS5 v4/v6/domain, HTTP CONNECT) with seeded sizes (0 to several windows), chunking and concurrency; UDP exchanges run through the UDP remote and SOCKS5 UDP ASSOCIATE with several local sockets at once, each association addressing two different targets. Conversations in which the local client goes away first (close while the target streams 48 MiB, with or without a prior half-close, with or without a pause) check that the target is not left blocked; their deterministic core (a peer that still has send credit is told within one round trip that the stream was let go) runs in the simulator (c01b). Every received byte is checked against the sender's position-addressed stream, half-close and close propagation are checked per direction, UDP replies per socket. Exploration under the OS scheduler.",
+        "level_note": "No schedule control on real sockets; a hang needs a witness (process quiescence, or no byte of progress for 10 s on the connection), otherwise the run is inconclusive. One open known finding (target left hanging after half-close + pause + close), see known_findings.json and DESIGN.md 7.5.",
     },
 }
